@@ -10,10 +10,13 @@
  * stdin, one case per line (strings hex-encoded, "-" empty, "~" absent):
  *   pl <ptype> <defmod> <libpath> <soname|~> <nitems> {<neg> <name> <module|~>}… <nsyms> <sym>…
  *   pf <ty> <minsize> <symsize> <addr> <a|r> <tramp> <codehex>
- *   uf <ty> <addr> <symsize> <loc|~> <codehex>
+ *   uf <ty> <addr> <symsize> <loc|~> <codehex> [<textsize> <tramp|~> <ngot> {<off> <which>}…
+ *      <nplt> {<name> <addr> <size>}…]
+ *      (which: 0 = &__fentry__, 1 = &mcount, 2 = some other address; written as 8 bytes at <off>;
+ *       the PLT entries become ST_PLT_FUNC symbols of the module's symtab, sorted by address)
  *   flow <ptype> <defmod> <minsize> <nitems> {<neg> <name> <module|~>}… <nmods>
  *        { <lib> <ty> <toff> <tsize> <setupfails> <npages> <codehex>
- *          <nsyms> {<name> <addr> <size> <type>}… <nlocs> {<loc>}… }…
+ *          <nsyms> {<name> <addr> <size> <type>}… <nlocs> {<loc>}… <ngot> {<off> <which>}… }…
  * stdout per case:
  *   MODEL <line for `uvmodel C14`>
  *   IMPL <result line in the model's output format>
@@ -24,6 +27,18 @@
 #include <sys/syscall.h>
 
 #include "libmcount/dynamic.c"
+
+/* the tracer's other entry function (glibc's here, libmcount's in a real run) */
+extern void mcount(void);
+
+static unsigned long entry_addr(int which)
+{
+	if (which == 0)
+		return (unsigned long)__fentry__;
+	if (which == 1)
+		return (unsigned long)mcount;
+	return (unsigned long)entry_addr; /* a function that is not a tracer entry */
+}
 
 /* ---- mprotect interposition: fault injection for the RWX request of setup ---- */
 static unsigned long fail_rwx_page[16];
@@ -378,7 +393,10 @@ static void do_pf(char *p, bool unpatch)
 	}
 	else {
 		char *ty = tok(&p);
-		char *loc;
+		char *loc, *t;
+		struct uftrace_module *mod;
+		long textsize;
+		int ngot, nplt, i;
 
 		sym.addr = strtoul(tok(&p), NULL, 0);
 		sym.size = strtoul(tok(&p), NULL, 0);
@@ -387,20 +405,64 @@ static void do_pf(char *p, bool unpatch)
 		npages = (len + 64) / PAGE_SIZE + 1;
 		buf = map_region(0, npages);
 		syscall(SYS_mprotect, buf, (size_t)npages * PAGE_SIZE, PROT_READ | PROT_WRITE | PROT_EXEC);
-		memcpy(buf, code, len);
 		map->start = (unsigned long)buf;
+		map->end = map->start + len;
 		mdi.type = parse_ty(ty);
+		mdi.text_addr = map->start;
 		if (strcmp(loc, "~")) {
 			loc_arr[0] = strtoul(loc, NULL, 0);
 			mdi.patch_target = loc_arr;
 			mdi.nr_patch_target = 1;
 		}
 
+		/* optional: code segment size, trampoline, GOT contents, PLT symbols */
+		t = tok(&p);
+		textsize = t ? strtol(t, NULL, 0) : (long)len;
+		mdi.text_size = textsize;
+		t = t ? tok(&p) : NULL;
+		if (t && strcmp(t, "~"))
+			mdi.trampoline = map->start + strtoul(t, NULL, 0);
+		t = t ? tok(&p) : NULL;
+		ngot = t ? atoi(t) : 0;
+		for (i = 0; i < ngot; i++) {
+			unsigned long off = strtoul(tok(&p), NULL, 0);
+			unsigned long v = entry_addr(atoi(tok(&p)));
+
+			if (off + sizeof(v) <= len)
+				memcpy(code + off, &v, sizeof(v));
+		}
+		t = t ? tok(&p) : NULL;
+		nplt = t ? atoi(t) : 0;
+		mod = xzalloc(sizeof(*mod) + 8);
+		strcpy(mod->name, "pf");
+		mod->symtab.sym = xcalloc(nplt + 1, sizeof(*mod->symtab.sym));
+		mod->symtab.nr_sym = nplt;
+		for (i = 0; i < nplt; i++) {
+			mod->symtab.sym[i].name = (char *)unhex(tok(&p), NULL);
+			mod->symtab.sym[i].addr = strtoul(tok(&p), NULL, 0);
+			mod->symtab.sym[i].size = strtoul(tok(&p), NULL, 0);
+			mod->symtab.sym[i].type = ST_PLT_FUNC;
+		}
+		map->mod = mod;
+		memcpy(buf, code, len);
+
 		printf("MODEL uf %s %#lx %s ", ty, (unsigned long)sym.addr, loc);
 		puthex(code, len);
+		printf(" %#lx %zu 0 %ld %#lx %#lx %#lx", map->start, len, textsize, mdi.trampoline,
+		       entry_addr(0), entry_addr(1));
+		for (i = 0; i < nplt; i++) {
+			printf(" P ");
+			putstrhex(mod->symtab.sym[i].name);
+			printf(" %#lx %u", (unsigned long)mod->symtab.sym[i].addr, mod->symtab.sym[i].size);
+		}
 		putchar('\n');
 
 		rc = mcount_unpatch_func(&mdi, &sym, NULL);
+
+		for (i = 0; i < nplt; i++)
+			free(mod->symtab.sym[i].name);
+		free(mod->symtab.sym);
+		free(mod);
 	}
 
 	printf("IMPL rc=%d ", rc);
@@ -425,6 +487,7 @@ struct fmod {
 	struct uftrace_symbol *syms;
 	int nlocs;
 	unsigned long *locs;
+	int ngot;
 	unsigned char *region;
 	struct uftrace_mmap *map;
 	struct uftrace_module *mod;
@@ -484,6 +547,14 @@ static void do_flow(char *p)
 		m->locs = calloc(m->nlocs + 1, sizeof(*m->locs));
 		for (i = 0; i < m->nlocs; i++)
 			m->locs[i] = strtoul(tok(&p), NULL, 0);
+		m->ngot = atoi(tok(&p));
+		for (i = 0; i < m->ngot; i++) {
+			unsigned long off = strtoul(tok(&p), NULL, 0);
+			unsigned long v = entry_addr(atoi(tok(&p)));
+
+			if (off + sizeof(v) <= m->codelen)
+				memcpy(m->code + off, &v, sizeof(v));
+		}
 
 		/* memory: npages of r-x "text segment" holding the code */
 		m->region = map_region(k, m->npages);
@@ -530,7 +601,7 @@ static void do_flow(char *p)
 	putstrhex(defmod);
 	putchar(' ');
 	putstrhex(patch);
-	printf(" %u %#lx", minsize, (unsigned long)__fentry__);
+	printf(" %u %#lx %#lx", minsize, (unsigned long)__fentry__, entry_addr(1));
 	for (k = 0; k < nmods; k++) {
 		struct fmod *m = &fm[k];
 		size_t full = (size_t)(m->npages + 1) * PAGE_SIZE;
@@ -549,8 +620,9 @@ static void do_flow(char *p)
 
 			printf(" S ");
 			putstrhex(m->syms[i].name);
-			printf(" %#lx %u %d ", (unsigned long)m->syms[i].addr, m->syms[i].size,
-			       t == ST_LOCAL_FUNC || t == ST_GLOBAL_FUNC || t == ST_WEAK_FUNC);
+			printf(" %#lx %u %c ", (unsigned long)m->syms[i].addr, m->syms[i].size,
+			       t == ST_PLT_FUNC ? 'P' :
+			       (t == ST_LOCAL_FUNC || t == ST_GLOBAL_FUNC || t == ST_WEAK_FUNC) ? '1' : '0');
 			put_bits(ptype, it, nitems, m->syms[i].name);
 		}
 		for (i = 0; i < m->nlocs; i++) {
